@@ -116,6 +116,9 @@ def is_size_bound(expr, defs, depth=0):
         return True
     if isinstance(expr, ast.Name) and expr.id in defs and len(defs[expr.id]) == 1:
         return is_size_bound(defs[expr.id][0], defs, depth + 1)
+    if isinstance(expr, ast.Call) and isinstance(expr.func, ast.Attribute) and u(expr.func.value) == 'self' and HELPERS.get(expr.func.attr) is not None:
+        # a private helper whose body is a single `return <expr>`: judge the returned expression
+        return is_size_bound(HELPERS[expr.func.attr], {}, depth + 1)
     return False
 
 
@@ -142,9 +145,18 @@ def zero_padded_at_end(expr, defs, depth=0):
     return False
 
 
+HELPERS = {}
+
+
 def check_devices(run, repo):
     m = repo.module(MT)
     n = 0
+    HELPERS.clear()
+    for ci in m.classes.values():
+        for fi in ci.methods.values():
+            body = [s_ for s_ in fi.node.body if not (isinstance(s_, ast.Expr) and isinstance(s_.value, ast.Constant))]
+            if len(body) == 1 and isinstance(body[0], ast.Return) and body[0].value is not None:
+                HELPERS[fi.name] = body[0].value
     for ci in m.classes.values():
         if not ci.is_subclass_of('MemoryType') or ci.name == 'MemoryType':
             continue
